@@ -125,7 +125,7 @@ MUTANTS = [
     ("c10-hist-half-open-default", ["C10"], "redshifts.py",
      'bin_idx = np.digitize(redshifts, binning.edges, right=(binning.closed == "right"))', 'bin_idx = np.digitize(redshifts, binning.edges)'),
     ("c10-hist-outer-kept", ["C10"], "redshifts.py",
-     "    return counts[1:-1].astype(np.float64)", "    counts[1] += counts[0]\n    return counts[1:-1].astype(np.float64)"),
+     "    return patch_id, counts[1:-1].astype(np.float64)", "    counts[1] += counts[0]\n    return patch_id, counts[1:-1].astype(np.float64)"),
     ("c10-empty-tree-removed", ["C10", "C01"], "catalog/trees.py",
      "        if self.tree is None or other.tree is None:\n            return np.zeros(len(ang_limits))\n", ""),
     ("c10-binning-file-closed-flipped", ["C07"], "catalog/trees.py",
